@@ -212,10 +212,27 @@ def parseArgLoop (pinned : Bool) : Nat → Text → R (Terms × Text)
     else pure (.cons t .nil, s)
 end
 
-/-- `Term::from_str` -/
+mutual
+/-- nesting depth of a term: 0 without arguments, one more than the deepest argument otherwise -/
+def Term.depth : Term → Nat
+  | .mk _ _ args => args.depth
+def Terms.depth : Terms → Nat
+  | .nil => 0
+  | .cons t r => max (t.depth + 1) r.depth
+end
+
+/-- `MAX_TERM_DEPTH` (fix c368604: `parse_term(s, depth)` refuses `depth > MAX_TERM_DEPTH`; before it the recursive
+descent exhausted the machine stack on a text nested some 50 000 levels deep — an abort, which this model cannot
+exhibit) -/
+def MAX_TERM_DEPTH : Nat := 32
+
+/-- `Term::from_str`.  Rust refuses a term at nesting level 33 as soon as the descent reaches it; the model parses
+first and checks the depth of the result (the same outcome class: a text with a syntax error elsewhere is an error
+either way) -/
 def Term.fromStrWith (pinned : Bool) (s : Text) : R Term := do
   let (t, rest) ← parseTerm pinned (3 * s.length + 16) s
-  if trimStart rest = [] then pure t else fail "Trailing content in term"
+  if t.depth > MAX_TERM_DEPTH then fail "Term is nested too deeply"
+  else if trimStart rest = [] then pure t else fail "Trailing content in term"
 
 def Term.fromStr (s : Text) : R Term := Term.fromStrWith false s
 def Term.fromStrPinned (s : Text) : R Term := Term.fromStrWith true s
